@@ -146,6 +146,7 @@ func init() {
 func init() {
 	register("C01",
 		"Decides necessary conditions of the encode-then-read round trip, writer against reader and schema generator against codec builder: everything each codec's Write emits is accepted by its own Read (WA-WR); length prefixes and item counts are those of the data written (WA-LEN, WA-CNT); on the generated-schema path every Go kind gets a codec of exactly its width (BT-WIDTH) and Read, Write and Omit of one codec agree on what the pointer is (PC-METH); pointers are always wrapped in a union because the pointer codec writes nothing for nil (BT-PTRWRAP); schema generation and codec construction take field names and the omit flag from the same helpers (SG-NAMES); the schema in the header is the one the codec was built from (ENC-SAME); the target is cleared before each record (OD-CLEAR).  Added after seed round 5: varints are written only by the standard encoder (VAR-STD) and Omit is true only on a zero test of the value (OM-ZERO).  What is handed to the decompressor is exactly the bytes read for this block (OD-LEN, OD-FLOW).  A validity wrapper is written as null exactly when its Valid flag is false, whatever payload it carries (OM-VALID); no decoded value is a view of the reusable block buffer (AL-BUF).  Every occurrence of a struct type in the generated schema carries the record of that struct's own fields — schema generation is folded for a struct using one named type twice and two unnamed types (SG-REPEAT).  A field is typed by its Go type's registered schema and decoded by the codec built for that type, whatever its kind and whether it is named or embedded (SG-REG, BT-REC). "+
+			"Stateful compressors are made per reader and per writer and never kept in package state (LK-OWN). "+
 			"Not decided: equality of values for all types, values and configurations.",
 		func(c *Ctx) {
 			ruleSGRepeat(c)
@@ -159,6 +160,7 @@ func init() {
 			ruleBTPtrWrap(c)
 			ruleSGNames(c)
 			ruleBTRec(c)
+			ruleLKOwn(c)
 			ruleSGReg(c)
 			ruleENCSame(c)
 			ruleODClear(c, findReadFile(c.P))
@@ -178,8 +180,11 @@ func init() {
 
 	register("C02",
 		"Decides necessary conditions of 'valid Avro for an independent reader' against an oracle that is not the library's own reader: the block and header layout (OD-BLOCK, OD-HDR), the snappy trailer (CRC-BE), and for every codec type that what Write emits lies in the language the Avro 1.8 specification defines for the schema types the codec is built for (WA-SPEC-W); a nullable union writes exactly one selector with the right index and exactly the selected branch (WA-SEL); counts and length prefixes are those of the data (WA-CNT, WA-LEN); the omit flag reaches the codec whose Omit the union consults (BT-OMIT) and Omit is true only for nil/invalid/empty-under-omitempty (OM-SHAPE); Read/Write/Omit agree on the pointer (PC-METH); the embedded schema is the codec's own and is balanced JSON with the right keys (ENC-SAME, JS-*); pointers are wrapped in unions (BT-PTRWRAP).  Omit is true only on a zero test of the value at its pointer (OM-ZERO).  An encoder is handed out only after the header has been written (ENC-HDR): a zero-record file is still a container.  A validity wrapper is omitted exactly when Valid is false (OM-VALID). "+
+			"The day count of a date is formed without time.Duration and with floor division (TS-NODUR, TS-FLOOR). "+
 			"Not decided: agreement of values with an external decoder.",
 		func(c *Ctx) {
+			ruleTSNoDur(c)
+			ruleTSFloor(c)
 			ruleODBlock(c)
 			ruleODHdr(c)
 			s := findReadFile(c.P)
@@ -210,9 +215,11 @@ func init() {
 
 	register("C17",
 		"Decides the few structural necessary conditions of C17 (thin by design): integer range checks use exactly MinT/MaxT of the destination width (RC-RANGE); floats are transferred as exactly sizeof(T) bytes by plain copy and a float32 carried as a double is converted on both sides of an 8-byte copy (SZ-FLOAT); varints are encoded only through the standard library's encoders, so shortest form and the ten-byte limit are the library's (VAR-STD); every integer kind gets the codec of its own width (BT-WIDTH). "+
+			"Read and Skip of every codec built for float or double, the skip-only ones included, accept exactly 4 and 8 bytes (WA-SPEC-R, WA-SPEC-S). "+
 			"Not decided: the decoder's overflow constants and zig-zag arithmetic, NaN payloads beyond byte copy, big-endian hosts.",
 		func(c *Ctx) {
 			ruleRCRange(c)
+			ruleWASpec(c, "RS")
 			ruleRCVarint(c)
 			ruleUVFold(c)
 			ruleValFold(c)
@@ -226,9 +233,11 @@ func init() {
 func init() {
 	register("C06",
 		"Decides enumerated preconditions of 'no panic, no runaway allocation' over the reading call graph: every length, count or index decoded from the input (taint from ReadBuf.Varint / binary.ReadVarint, through arithmetic, phis and into module callees) reaches an allocation, slice bound or index only under a dominating non-negativity check (TL-LOW) and upper comparison (TL-BOUND), allocations additionally under a bound tied to the input actually present (TL-UP), and no guard adds to a still-unbounded decoded length (TL-OVF); constant and range-index offsets into strings/slices in the timestamp parser and the decompressors lie within an established minimum length (TL-IDX); the schema's optional object part is dereferenced only under a nil test (NIL-OBJ); no nil decompressor (NIL-IFACE); explicit panics are dead per instantiation and unchecked assertions justified (PANIC-REACH).  A codec returned by a builder never carries a nil sub-codec (BT-SUBNIL). "+
+			"A schema in memory is a finite tree: nodes are linked only while they are made (SCH-TREE), so decoder construction over it ends; and for every schema type the dispatcher folded with no Go type (a field the struct lacks) returns a codec and panics on no path (BT-NILTYP). "+
 			"Not decided: termination of count-controlled loops whose body consumes no input, panics inside third-party decoders, stack depth on deeply nested schemas.",
 		func(c *Ctx) {
 			ruleSchTree(c)
+			ruleBTNilTyp(c)
 			ruleTL(c)
 			ruleArrBound(c)
 			ruleTLIdx(c)
@@ -258,9 +267,11 @@ func init() {
 func init() {
 	register("C10",
 		"Decides ownership clauses of C10 from the source: no view of the block buffer (a result of ReadBuf.Next, a sub-slice of ReadBuf.buf, or an unsafe string view of either) is stored into the destination, a bank, a map or returned — it is only indexed, copied from, converted by copy, or handed to functions that do the same (AL-BUF, interprocedural over module callees); the decompressor's reusable result is used only as the read buffer (AL-BLOCK); interned strings view the bank's own append-only store, whose earlier bytes are never rewritten and which only Close truncates (AL-STR); a bank allocation returns array + index*size for the pre-increment index, increments on every path, grows into a new typed array of the recorded capacity, and clears the slot with its own type first (AL-BUMP, AL-CLR); Close only resets (AL-CLOSE); each callback gets a bank extracted in the same iteration and extraction installs a fresh one (OD-BANK); banks share no package state but the pool (LK-POOL, LK-GLOBAL). "+
+			"The slice-header shadow has a slice's pointer layout and linknamed runtime functions are declared with the runtime's signature shapes (GC-SHADOW, GC-LINKSIG). "+
 			"Not decided: interleavings of user-side Close calls (a double close is a user error the code cannot see).",
 		func(c *Ctx) {
 			ruleALBuf(c)
+			ruleGCLink(c)
 			ruleALBlock(c)
 			ruleALStr(c)
 			ruleALBump(c)
